@@ -53,3 +53,25 @@ class PlainExecutor(SemantivaExecutor):
         fut: Future = Future()
         fut.set_result(fn(*args, **kwargs))
         return fut
+
+
+def _make_orchestrator_class():
+    from semantiva.execution.orchestrator.orchestrator import LocalSemantivaOrchestrator
+
+    class SvOrchestrator(LocalSemantivaOrchestrator):
+        """Thin subclass over the existing orchestrator seam: tells the world when a run begins,
+        then runs the real execute() unchanged. Defaults to the RecordingExecutor."""
+
+        def __init__(self, executor=None, **_ignored):
+            super().__init__(executor or RecordingExecutor())
+
+        def execute(self, *args, **kwargs):
+            w = _world.WORLD
+            if w is not None:
+                w.begin_run()
+            return super().execute(*args, **kwargs)
+
+    return SvOrchestrator
+
+
+SvOrchestrator = _make_orchestrator_class()
